@@ -87,6 +87,8 @@ pub async fn start<F, Fut>(
                     Level::Warn,
                     format!("Failed to get event files with error: {}", e),
                 );
+                // fail closed: without a listing the cap cannot be checked, drop the events
+                continue;
             }
         }
 
